@@ -350,7 +350,7 @@ def jobs(tier):
             for pos in ('last', 'first'):
                 out.append({'host': h, 'form': 'asm', 'target': 'id', 'other': o, 'pos': pos})
                 out.append({'host': h, 'form': 'plain', 'target': 'mem', 'other': o, 'pos': pos})
-    rowsets = [['v1'], ['v1, "ar"'], ['v1, ["m1"]', 'v2, "bar", ["m1", "m2"]'], ['v1', 'v2, "ar"'], ['v1, v3', 'v2'], ['v1.x, "ar", ["m"]']]
+    rowsets = [['v1, "my_arg"'], ['v1, "a_b", ["m1"]', 'v2'], ['v1, "x-y"'], ['v1, "update:z"'], ['v1'], ['v1, "ar"'], ['v1, ["m1"]', 'v2, "bar", ["m1", "m2"]'], ['v1', 'v2, "ar"'], ['v1, v3', 'v2'], ['v1.x, "ar", ["m"]']]
     if tier != 'quick':
         rowsets += [['v1, "a"', 'v2, "b"', 'v3, "c"'], ['v1[v2]'], ['v1, ["m1"]', 'v2, ["m2"]']]
     for h in ('Foo', 'input', 'C1', 'div'):
